@@ -59,7 +59,7 @@ def fx(v, scale):
 class Backends:
     """A SqliteMap and an InMemMap driven by the same history."""
 
-    def __init__(self, place, crs, name, d):
+    def __init__(self, place, crs, name, d, linked=None):
         from leuvenmapmatching.map.sqlite import SqliteMap
         from leuvenmapmatching.map.inmem import InMemMap
         self.place, self.name, self.dir = place, name, d
@@ -68,7 +68,13 @@ class Backends:
         if crs is not None:
             kw = dict(crs_lonlat=crs[0], crs_xy=crs[1])
         self.sq = SqliteMap(name, use_latlon=place.latlon, dir=d, **kw)
-        self.im = InMemMap(name, use_latlon=place.latlon, dir=d, **kw)
+        self.linked = linked or []
+        le = None
+        if self.linked:
+            le = {}
+            for e, fs in self.linked:
+                le[tuple(e)] = {tuple(f) for f in fs}
+        self.im = InMemMap(name, use_latlon=place.latlon, dir=d, linked_edges=le, **kw)
         self.ids = []
         self.edges = []
 
@@ -266,11 +272,11 @@ def clean_load_history(rng, G, nn, density):
     return evs, coord
 
 
-def record_run(tid, evs, place, crs, G, rng, nq, d, query_every=False):
+def record_run(tid, evs, place, crs, G, rng, nq, d, query_every=False, linked=None):
     """run one history on both backends; returns the run record for the trace file"""
     name = f'm{os.getpid()}_{tid}'
-    B = Backends(place, crs, name, d)
-    run = {'tid': tid, 'latlon': place.latlon, 'approx': place.latlon,
+    B = Backends(place, crs, name, d, linked=linked)
+    run = {'tid': tid, 'latlon': place.latlon, 'approx': place.latlon, 'imlinked': linked or [],
            'crs': list(crs) if crs else ['EPSG:4326', 'EPSG:3395'], 'place': place.desc(), 'events': []}
     try:
         with contextlib.redirect_stdout(io.StringIO()):
@@ -407,7 +413,17 @@ def run(chk):
             run_ = record_run(t + 1, evs, place, rng.choice(crss), G, rng, 6, d, query_every=(t % 3 != 0))
         else:
             evs, _ = gen_history(rng, G, rng.randint(2, 6), 10, rng.randint(1, 3))
-            run_ = record_run(t + 1, evs, place, rng.choice(crss), G, rng, 8, d, query_every=True)
+            linked = None
+            if t % 3 == 1:      # an in-memory map constructed with linked (parallel) edges: the pickle must keep them
+                es = [(e['a'], e['b']) for e in evs if e['op'] == 'add_edge'] + [tuple(x) for e in evs if e['op'] == 'add_edges' for x in e['S']]
+                es = list(dict.fromkeys(es))
+                if len(es) >= 2:
+                    linked = []
+                    for e in rng.sample(es, min(len(es), 2)):
+                        fs = [list(f) for f in es if len({e[0], e[1], f[0], f[1]}) == 4][:2]
+                        if fs:
+                            linked.append([list(e), fs])
+            run_ = record_run(t + 1, evs, place, rng.choice(crss), G, rng, 8, d, query_every=True, linked=linked)
         runs.append(run_)
     verdicts = validate(chk, runs, pid)
     nontriv = 0
